@@ -262,9 +262,6 @@ def run(ctx: common.Ctx):
     # ---- (d) paired real runs ------------------------------------------------------------------------------------------------------
     import pydsdl
     inputs = shared.corpus_inputs(ctx) + shared.generated_inputs(ctx, 1 if ctx.quick else 5)
-    repo_tests = common.REPO / "verification" / "nunavut_test_types" / "test0" / "regulated"
-    if not ctx.quick and repo_tests.exists():
-        inputs.append(("repo:test0/regulated", repo_tests, []))
     scratch = ctx.scratch
     (scratch / "cwd").mkdir()
     tpl_root = common.VERIF / "corpus" / "C10" / "templates"
